@@ -92,7 +92,9 @@ def c18(pid, tier, seed, selftest=False):
     if thorough:
         grid += [(2 ** k, r, p) for k in range(1, 13) for r in (1, 5, 16) for p in (1, 4, 8) if 128 * r * 2 ** k <= 16 << 20]
     for i, (n, r, p) in enumerate(grid):
-        for j, (pl, sl, dk) in enumerate([(0, 0, 32), (8, 32, 32), (65, 1, 200), (1, 64, 1)]):
+        for j, (pl, sl, dk) in enumerate([(0, 0, 32), (8, 32, 32), (65, 1, 200), (1, 64, 1), (64, 16, 32), (63, 65, 33), (128, 63, 64)]):
+            if j >= 4 and i % 3 and not thorough:
+                continue
             pw = bytes(rnd.getrandbits(8) for _ in range(pl))
             salt = bytes(rnd.getrandbits(8) for _ in range(sl))
             want = hashlib.scrypt(pw, salt=salt, n=n, r=r, p=p, dklen=dk, maxmem=128 * 1024 * 1024).hex()
